@@ -43,20 +43,34 @@ def post(prog, r, tier, prof):
     # bias: expunge the last message right before a delivery (number re-use)
     ops = prog["ops"]
     out = []
+    idle = set()
+
+    def awake():
+        # (a session that is idling can only send DONE)
+        c = [x["id"] for x in prog["sessions"] if x["id"] not in idle]
+        return r.choice(c) if c else None
+
     for op in ops:
+        if op.get("op") == "idle":
+            idle.add(op["s"])
+        elif op.get("op") == "done":
+            idle.discard(op.get("s"))
+        if op.get("op") == "deliver" and awake() is None:
+            out.append(op)
+            continue
         if op.get("op") == "deliver" and r.random() < 0.08:
             # the folder is emptied completely right before the delivery: number 1 is re-used
-            s = r.choice(prog["sessions"])["id"]
+            s = awake()
             out.append({"s": s, "op": "select", "mbox": op["mbox"], "examine": False})
             out.append({"s": s, "op": "store", "uid": r.random() < 0.5, "set": {"all": True}, "how": "+", "flags": ["\\Deleted", r.choice(("\\Flagged", "\\Answered", "kw1"))], "silent": r.random() < 0.5})
             out.append({"s": s, "op": r.choice(("expunge", "close"))})
         elif op.get("op") == "deliver" and r.random() < 0.35:
-            s = r.choice(prog["sessions"])["id"]
+            s = awake()
             out.append({"s": s, "op": "select", "mbox": op["mbox"], "examine": False})
             out.append({"s": s, "op": "store", "uid": False, "set": {"raw": "*"}, "how": "+", "flags": ["\\Deleted", "\\Flagged"], "silent": False})
             out.append({"s": s, "op": "expunge"})
         out.append(op)
-    if prog["mode"] == "sequential" and r.random() < 0.12 and len(prof["mailboxes"]) > 1:
+    if prog["mode"] == "sequential" and r.random() < 0.12 and len(prof["mailboxes"]) > 1 and prog["sessions"][0]["id"] not in idle:
         # a mailbox with flagged messages is deleted while it has a child (the folder stays as a placeholder), an MH
         # agent delivers into the folder, the mailbox is created again: the new mail has the agent's flags only
         s = prog["sessions"][0]["id"]
